@@ -387,6 +387,61 @@ func c15LongRun(c *Ctx, n int, poison bool) {
 	}
 }
 
+// c15LongRepin: n dialogs pinned together expire together; while the purge of that population is
+// under way some of them are established again, more dialogs follow, and the re-established ones
+// must still be pinned (their new lifetime has only just begun).
+func c15LongRepin(c *Ctx, n int) {
+	x := c15Start("yaml")
+	defer x.w.Close()
+	T := int64(c15T) * 1e9
+	name := fmt.Sprintf("long-run-repin(n=%d)", n)
+	cs := c15Case{fmt.Sprintf("repin:%d", n), nil}
+	est := func(d int) string {
+		tos, rel := x.request("INVITE", d, false)
+		if len(tos) != 1 || rel == nil {
+			return ""
+		}
+		x.w.SendUDP(tos[0], c15Lst, ResponseTo(rel, 200, fmt.Sprintf("t%d", d)).Render())
+		x.w.Observe()
+		c.Res.Executions++
+		return tos[0]
+	}
+	for d := 0; d < n; d++ {
+		if est(d) == "" {
+			c.Violate("long-run-not-relayed", "invite-not-relayed-once", name, cs)
+			return
+		}
+		x.w.S.W.Advance(1e6)
+	}
+	x.w.S.W.Advance(T + T/2) // every pin has expired and a purge is due
+	again := []int{0, n / 4, n / 2, 3 * n / 4, n - 1}
+	pinned := map[int]string{}
+	for _, d := range again {
+		pinned[d] = est(d)
+		x.w.S.W.Advance(1e6)
+	}
+	for d := n; d < n+8; d++ {
+		est(d)
+		x.w.S.W.Advance(1e6)
+	}
+	for _, d := range again {
+		for k := 0; k < 4; k++ {
+			tos, _ := x.request("INFO", d, true)
+			if len(tos) != 1 || tos[0] != pinned[d] {
+				c.Violate("pin-lost-during-purge|long-run-repin", "pin-lost-during-purge", fmt.Sprintf("%s: %d dialogs were pinned and expired together; %.1f s later dialog %d was established again through backend %s (then 4 more re-established, 8 new ones); %d ms into its new lifetime of %d s an in-dialog request went to %v",
+					name, n, float64(T+T/2)/1e9, d, pinned[d], (x.now()-0)/1e6%1000, c15T, tos), cs)
+				return
+			}
+		}
+	}
+	if vd := x.w.S.Verdict(); vd != "" {
+		c.Violate("health|long-run-repin", "health", name+": "+vd, cs)
+		return
+	}
+	c.Res.Evaluations++
+	c.Res.Nontrivial++
+}
+
 func c15Events(two bool, thorough bool) []c15Ev {
 	var evs []c15Ev
 	nd := 1
@@ -398,9 +453,9 @@ func c15Events(two bool, thorough bool) []c15Ev {
 			evs = append(evs, c15Ev{Kind: "est", D: d, Exp: e})
 		}
 		evs = append(evs, c15Ev{Kind: "probe", D: d})
-		evs = append(evs, c15Ev{Kind: "bye", D: d, Code: 200}, c15Ev{Kind: "bye", D: d, Code: 481})
+		evs = append(evs, c15Ev{Kind: "bye", D: d, Code: 200}, c15Ev{Kind: "bye", D: d, Code: 481}, c15Ev{Kind: "bye", D: d, Code: 603})
 		if thorough {
-			evs = append(evs, c15Ev{Kind: "bye", D: d, Code: 503})
+			evs = append(evs, c15Ev{Kind: "bye", D: d, Code: 503}, c15Ev{Kind: "bye", D: d, Code: 302})
 		}
 		for _, s := range []string{"active", "terminated", "terminated;reason=timeout"} {
 			evs = append(evs, c15Ev{Kind: "notify", D: d, State: s})
@@ -466,18 +521,34 @@ func c15Run(c *Ctx) {
 	if c.Worker == 1%c.NWorkers {
 		c15LongRun(c, 200, true)
 	}
+	if c.Worker == 2%c.NWorkers {
+		c15LongRepin(c, 200)
+	}
+	if c.Worker == 3%c.NWorkers {
+		c15LongRepin(c, 1000)
+	}
 	cleanupYamlFiles()
 }
 
 func init() {
 	addCheck(&Check{ID: "C15", Level: "model_checking", Collapse: true,
-		Rule:   "explicit-state BFS by replay on the VIRTUAL clock (dialogTimeout 10 s through YAML, through DEFAULT_DIALOG_TIMEOUT and through the real main()): events {establishing 200 with Expires none/5/30/2147483647 (repeatable), probe = 4 consecutive in-dialog requests, BYE answered 200/481(/503), NOTIFY active/terminated/terminated;reason (don't-care), clock steps 1/5/6/9.998/11/31 s, unrelated request with Expires none/2147483647}, one dialog to depth 5 (thorough 6), two dialogs to depth 4 (5); oracle: pinned before min(t_i+max(T,Expires_i)), load-balanced after max(...) or after termination, don't-care in between and within 1 ms of an expiry; table invariant after every traffic event: no entry expired for more than 2T while traffic flowed with gaps <= T/2; plus two long runs pinning 200 dialogs (one poisoned by a huge Expires) followed by 35 s of traffic ticks; non-trivial = history longer than two events",
+		Rule:   "explicit-state BFS by replay on the VIRTUAL clock (dialogTimeout 10 s through YAML, through DEFAULT_DIALOG_TIMEOUT and through the real main()): events {establishing 200 with Expires none/5/30/2147483647 (repeatable), probe = 4 consecutive in-dialog requests, BYE answered 200/481/603(/503/302), NOTIFY active/terminated/terminated;reason (don't-care), clock steps 1/5/6/9.998/11/31 s, unrelated request with Expires none/2147483647}, one dialog to depth 5 (thorough 6), two dialogs to depth 4 (5); oracle: pinned before min(t_i+max(T,Expires_i)), load-balanced after max(...) or after termination, don't-care in between and within 1 ms of an expiry; table invariant after every traffic event: no entry expired for more than 2T while traffic flowed with gaps <= T/2; plus two long runs pinning 200 dialogs (one poisoned by a huge Expires) followed by 35 s of traffic ticks, and two long runs (200 and 1000 dialogs) whose population expires together and is partly re-established while the purge is under way; non-trivial = history longer than two events",
 		Assume: []string{"real-time expiry on the real binary is not replayed: a wall-clock oracle at the scale of seconds alarms falsely under load (DESIGN.md §2.8)", "consecutive clock steps are explored in non-decreasing order only (they commute)"},
 		Run:    c15Run,
 		Replay: func(c *Ctx, raw json.RawMessage) string {
 			defer cleanupYamlFiles()
 			var cs c15Case
 			json.Unmarshal(raw, &cs)
+			if strings.HasPrefix(cs.Mode, "repin:") {
+				cc := &Ctx{ID: "C15x", Res: newResult(), vmap: map[string]*Violation{}, Deadline: c.Deadline, NWorkers: 1}
+				var n int
+				fmt.Sscanf(cs.Mode, "repin:%d", &n)
+				c15LongRepin(cc, n)
+				if len(cc.Res.Violations) > 0 {
+					return cc.Res.Violations[0].Clause
+				}
+				return ""
+			}
 			if strings.HasPrefix(cs.Mode, "long") {
 				cc := &Ctx{ID: "C15x", Res: newResult(), vmap: map[string]*Violation{}, Deadline: c.Deadline, NWorkers: 1}
 				c15LongRun(cc, 200, strings.HasSuffix(cs.Mode, "true"))
